@@ -104,6 +104,13 @@ def _is_countable_method(node: Any) -> bool:
     if method_name and method_name.startswith("_"):
         return False
 
+    # ... nor methods the language itself makes private: #name() and the `private` modifier
+    for child in node.children:
+        if child.type == "private_property_identifier":
+            return False
+        if child.type == "accessibility_modifier" and child.text.decode() == "private":
+            return False
+
     return True
 
 
